@@ -590,6 +590,23 @@ var catalogue = []mutation{
 		w.sig.SignedFields = nf
 		return true
 	}},
+	{"sig-field-list-entry-overwritten-with-another-entry", true, func(t *rapid.T, w *world, _ *auxData) bool {
+		// the list keeps its length; one entry now repeats another, so one field is no longer claimed
+		f := w.sig.SignedFields
+		if len(f) < 2 {
+			return false
+		}
+		i := rapid.IntRange(0, len(f)-1).Draw(t, "overwritten")
+		j := rapid.IntRange(0, len(f)-2).Draw(t, "with")
+		if j >= i {
+			j++
+		}
+		if f[i] == f[j] {
+			return false
+		}
+		f[i] = f[j]
+		return true
+	}},
 	{"sig-drop-env-field", true, func(t *rapid.T, w *world, _ *auxData) bool {
 		se := signedEnvFields(w.sig)
 		if len(se) == 0 {
@@ -815,7 +832,7 @@ var catalogue = []mutation{
 	}},
 }
 
-var rec = ev.New("TestPropMutationsBreakVerification", "command steps built as structs (S command text, step env, plugins with nested configs from the documented source forms, matrices with adjustments and extras, unsigned label/key/cache/unknown fields), pipeline env, repository URL, key kind in {EdDSA, ES512, PS512, ES256 signer}; each case signs, checks the positive control (verification env = pipeline env + unrelated variables, public half only), applies ONE mutation from a catalogue of 47 semantic mutations (must fail) or 9 benign ones (must still verify); non-trivial = semantic mutation applied to a step with >= 1 plugin or matrix or step env; distinct by hash of (step, mutation, key kind)")
+var rec = ev.New("TestPropMutationsBreakVerification", "command steps built as structs (S command text, step env, plugins with nested configs from the documented source forms, matrices with adjustments and extras, unsigned label/key/cache/unknown fields), pipeline env, repository URL, key kind in {EdDSA, ES512, PS512, ES256 signer}; each case signs, checks the positive control (verification env = pipeline env + unrelated variables, public half only), applies ONE mutation from a catalogue of 48 semantic mutations (must fail) or 9 benign ones (must still verify); non-trivial = semantic mutation applied to a step with >= 1 plugin or matrix or step env; distinct by hash of (step, mutation, key kind)")
 
 func TestPropMutationsBreakVerification(t *testing.T) {
 	ctx := context.Background()
